@@ -35,9 +35,16 @@ ASSUMPTIONS = [
     's*a + t*b == d holds, the violation key says so (cofactors-differ)',
     'public length: checked as invariance (one result length per operation and public input lengths) -- the module documents '
     'no closed formula; the observed table is written to the evidence',
-    'polynomial lengths stay <= p (secpols asserts len <= p for degree()); GF(5), GF(7), GF(509) stand for all primes',
+    'documented precondition "p must be sufficiently large compared to the degree bound": secpols needs every intermediate length '
+    '< p (e.g. _div encodes the degree + 1 <= len in GF(p)); over GF(5) the squarings inside powmod(a, n, b), |n| >= 2, of length-3 '
+    'operands reach length 5 and are not evaluated (observed there: quotient 0); all other cases keep lengths < p',
     'excluded event: blinding factor 0 in is_zero_public (forced non-zero by the seam)',
     'multi-party runs use the default eager schedule; m=3, t=1 stands for all configurations',
+    'excluded event (several parties): secpols converts GF(p) values to SecInt(l) with l = 1 + bits(p) (l = bits(p) + 2 in _lt); the value '
+    'c - sum_S r_S handed to runtime._mod can be as low as -C(m,t)(p-1), below -2^l, and is then only reduced correctly if the statistical '
+    'mask r_divb of _mod is at least about C(m,t) - 2 (probability about C(m,t)/2^k per conversion).  With k = 4 and the all-zero mask '
+    'pattern this makes gcd/gcdext/invert/powmod/< wrong (observed); the multi-party runs therefore use k = 20 and the seeded / all-max '
+    'patterns only.  With one party the reduction is exact for every mask (2^l >= 2p), so the single-party engine keeps all-zero masks',
 ]
 MANIFEST = dict(
     level='exploration',
@@ -51,6 +58,7 @@ MANIFEST = dict(
 
 PRIMES = (5, 7, 509)
 K_SP = 4
+K_MP = 20
 
 
 # ------------------------------------------------------------------------------------------------------------------
@@ -107,7 +115,7 @@ class DrawBudget(Exception):
     """More random draws in one operation than any terminating case needs: the Las-Vegas loop does not end."""
 
 
-DRAW_BUDGET = 8000
+DRAW_BUDGET = 4000
 
 
 def guard_seam(seam):
@@ -210,6 +218,8 @@ def build_ops(env):
     for n in (-2, -1, 0, 1, 2, 3):
         def pm_ref(a, b, n=n):
             _nz(b)
+            if abs(n) >= 2 and 2 * max(env.la, env.lb) - 1 > p - 1:
+                raise Skip()        # an intermediate square would have length >= p ("p must be sufficiently large")
             try:
                 return poly.powmod(a, n, b)
             except ZeroDivisionError:
@@ -291,6 +301,7 @@ def run_case(part, env, seam, sp, name, spec, plain, inputs, mode, script, seed,
     arity, cls, fn, ref, kind = spec
     mpc = env.mpc
     pls = [env.pl(c) for c in inputs]
+    env.la, env.lb = len(inputs[0]), len(inputs[-1])
     try:
         want = ref(*inputs) if plain else ref(*pls)
     except Skip:
@@ -360,13 +371,9 @@ def all_ops(env):
 
 def unit_list(p, tier):
     """Work units (op name, chunk index, chunks) with rough weights, for job splitting."""
-    from mc.exact import Dummy
     doms = domains(p, tier)
     units = []
     cost = dict(all=0.3, mid=4.0, heavy=10.0)
-
-    class FakeEnv:
-        pass
     names = OP_NAMES[p]
     for name, (arity, cls) in names.items():
         n = len(doms[cls]) ** arity
@@ -461,16 +468,17 @@ MP_OPS = ['add', 'sub', 'mul', 'floordiv', 'mod', 'divmod', 'eq', 'ne', 'lt', 'g
 
 def mp_cases(p, tier):
     e = edge(p)
-    one = arrays(e, 2) + [(1, 0, e[2]), (0, e[2], 1), (0, 0, 0)]
-    two = [(), (0,), (1,), (e[2],), (1, 1), (0, 1), (e[2], 0), (1, e[2]), (1, 0, 1), (e[2], 1, 1), (0, 0, 0)]
+    one = [(), (0,), (e[2],), (0, 1), (1, e[2]), (1, 0, e[2]), (0, e[2], 0)]
+    two = [(), (1,), (0, 1), (1, e[2]), (e[2], 1, 1)]
     if tier == 'thorough':
+        one = arrays(e, 2) + [(1, 0, e[2]), (0, e[2], 1), (0, 0, 0)]
         two = arrays(e, 2) + [(1, 0, 1), (e[2], 1, 1), (0, 0, 0), (0, 1, e[2])]
     out = []
     for name in MP_OPS:
         arity = OP_NAMES[p][name][0]
         dom = one if arity == 1 else two
         if name in ('gcdext', 'invert', 'is_irreducible') or name.startswith('powmod'):
-            dom = dom[::2] if tier == 'quick' else dom
+            dom = dom[1:] if tier == 'quick' else dom[::2]
         for inputs in itertools.product(dom, repeat=arity):
             if name in ('gcd', 'gcdext', 'monic', 'is_irreducible') and all(not any(c) for c in inputs):
                 continue        # zero polynomials: non-termination / assertion, reported by the single-party engine
@@ -487,6 +495,7 @@ def make_mp_program(p):
         res = []
         for idx, (name, inputs) in enumerate(ctx['cases']):
             plain, arity, cls, fn, ref, kind = ops[name]
+            env.la, env.lb = len(inputs[0]), len(inputs[-1])
             try:
                 want = ref(*inputs) if plain else ref(*[env.pl(c) for c in inputs])
             except Skip:
@@ -515,7 +524,7 @@ def run_mp(job):
     from mc.props.C37 import NpPatternPRF
     part = Part()
     m, t, no_prss, p = 3, 1, job['no_prss'], job['p']
-    k = exact.sec_param_for(m, t, K_SP)
+    k = K_MP
     world = exact.make_world(m, t, no_prss, k)
     seams = world.script_seams
     for u in world.universes:
@@ -569,7 +578,7 @@ def run_mp(job):
     batch = 6
     for lo in range(0, len(cases), batch):
         chunk = cases[lo:lo + batch]
-        for pat in ('seeded', 'max', 'zero'):
+        for pat in ('seeded', 'max'):
             ok, status, results = execute(chunk, pat)
             if ok:
                 for i, (name, inputs) in enumerate(chunk):
